@@ -2,5 +2,6 @@ SPECIFICATION Spec
 CONSTANTS
   StationLegacySkip = 128
   StationRandMinVer = 3
+  ClientPortSource = "session"
 INVARIANTS Agreement
 CHECK_DEADLOCK FALSE
